@@ -378,7 +378,7 @@ Crc(e) == IF "cksum" \in DOMAIN e THEN e.cksum ELSE e.alg = 1
 WriterOK(e) ==
   CASE e.fn = "rows" ->
          W(e, IsEvent(e.evbytes, <<55, 55>>, RowsType(e.kind, e.v2), <<49>>, <<49, 48, 48, 48>>, 0,
-                      RowsBody(e.tidw, e.tidtext, e.v2, e.extrab, Len(e.cols), e.kind, e.pb, e.pa, e.rows), e.cksum))
+                      RowsBodyP(e.tidw, e.tidtext, e.v2, e.extrab, Len(e.cols), e.kind, e.pb, e.pa, e.rows, e.padones), e.cksum))
     [] e.fn = "tablemap" ->
          W(e, IsEvent(e.evbytes, <<53>>, 19, <<51>>, <<56, 48, 48>>, 0,
                       TableMapBody(e.tidw, e.tidtext, e.db, e.name, e.cols, e.tail), e.cksum))
@@ -400,7 +400,7 @@ WriterOK(e) ==
                        [] e.k = "query" -> QueryBody(e.thread4, e.exec4, e.err2, e.vars, e.db, e.sql)
                        [] e.k = "tablemap" -> TableMapBody(e.tidw, e.tidtext, e.db, e.name, e.cols, e.tail)
                        [] e.k \in {"write", "update", "delete"} ->
-                            RowsBody(e.tidw, e.tidtext, e.v2, e.extrab, Len(e.cols), e.k, e.pb, e.pa, e.rows)
+                            RowsBodyP(e.tidw, e.tidtext, e.v2, e.extrab, Len(e.cols), e.k, e.pb, e.pa, e.rows, e.padones)
                        [] e.k \in {"gtid", "anongtid"} -> GtidBody(1, e.sid16, e.gno8, e.gtail)
                        [] e.k = "prevgtids" -> SidBlockBytes(e.rep)
                        [] e.k = "heartbeat" -> e.file
